@@ -399,11 +399,17 @@ def clause_e(c: Check):
     th = ix.cls('exactly_lib.test_suite.structure:TestSuiteHierarchy')
     init = util.ctor_of(ix, th)
     ok = False
-    for call, d in util.calls_in(ix, call_m):
-        if d == th:
-            b = util.ctor_call_args(ix, th, call) or {}
-            a = b.get('test_case_handling_setup')
-            ok = a is not None and unparse(a) == 'test_case_handling_setup'
+    n_built = 0
+    for p in util.func_paths(ix, c.fo, call_m, Hooks()):
+        for e in p.calls():
+            if e.data.get('callee') == th:
+                n_built += 1
+                names = [p_.arg for p_ in init.positional_params()[1:]] if init is not None else []
+                given = dict(zip(names, e.data['args']))
+                given.update(e.data['kwargs'])
+                a = given.get('test_case_handling_setup')
+                good = isinstance(a, Sym) and util.origin_call_key(util.root_sym(a)) == rs.key
+                ok = good if n_built == 1 else (ok and good)
     c.expect(ok, 'C17-e', 'TestSuiteHierarchy/handling-setup-slot', 'the resolved handling setup is not stored in the '
                                                                      'hierarchy node', call_m.loc())
 
